@@ -26,6 +26,9 @@ def check(chk, thorough=False):
     chk.run('C10.m', 'sibling', 'checking a CRC leaves the block as it was, so a bundle that passed the gate is not dropped later for a CRC the check itself destroyed (= C08.c)', lambda ob: __import__('sa.props.c08', fromlist=['c08c']).c08c(tree, ob), floor=8)
     chk.run('C10.n', 'R-NOPATH', 'security steps act only on bundles delivered here: a transit or unrouted bundle is not deleted by them (= C12.b)', lambda ob: __import__('sa.props.c12', fromlist=['c12b']).c12b(tree, ob), floor=8)
     chk.run('C10.o', 'R-FLOW', 'an administrative bundle for this node is delivered whether it arrived whole or in fragments: the record is read from the payload block data (= C06.k)', lambda ob: __import__('sa.props.c06', fromlist=['c06k']).c06k(tree, ob), floor=1)
+    chk.run('C10.p', 'R-WHO', 'the route tables are only appended to at run time: a configured route (pattern order, MTU) is never replaced or dropped by discovery', lambda ob: __import__('sa.props.common', fromlist=['route_tables_append_only']).route_tables_append_only(tree, ob), floor=1)
+    chk.run('C10.q', 'R-FLOW', 'every reception a CL announces reaches the agent: the adaptors pop exactly the announced transfer and hand it on unconditionally (repeats are judged by bundle identity, in the agent)', lambda ob: __import__('sa.props.c11', fromlist=['adaptor_rx_fidelity']).adaptor_rx_fidelity(tree, ob), floor=2)
+    chk.run('C10.r', 'R-ORDER', 'the block index the bundle identity is computed from exists before it is read (built at construction, or asked for by every reader)', lambda ob: c10r(tree, ob), floor=1)
     chk.run('C10.e', 'R-WHO', 'actions are recorded only through record_action (two sanctioned direct edits)', lambda ob: c10e(tree, ob), floor=3)
 
 
@@ -308,3 +311,38 @@ def c10j(tree, ob):
                    'bundle addressed to this node is deleted instead of delivered'.format(len(t.elts)), bad[0])
     else:
         ob.site(ADMIN, fv.func, '_recv_status does not destructure the record by a fixed count')
+
+
+def c10r(tree, ob):
+    ''' the identity of a bundle (and with it "seen before?") is computed from the block index of its container.  The index is
+    built when the container is made; where it is built lazily instead, every method that reads it has to ask for it first --
+    one that does not computes the identity of a fragment without its own length, and a second fragment at the same offset
+    looks like a repeat and is dropped. '''
+    cls = tree.klass(UTIL, 'BundleContainer')
+    meths = {m.name: m for m in cls.body if isinstance(m, ast.FunctionDef)}
+    ob.require('__init__' in meths and 'reload' in meths, 'BundleContainer.__init__ / reload')
+    fi = FuncView(tree, UTIL, 'BundleContainer.__init__')
+    rl = [c for c in method_calls(fi.func, 'reload', 'self')]
+    eager = bool(rl) and fi.cfg.must_pass(fi.cfg.entry, fi.cfg.exit, {fi.node(c) for c in rl}, include_exc=False)[0]
+    if eager:
+        ob.site(UTIL, rl[0], 'the block index is built when the container is made')
+        return
+    ensurers = {name for (name, m) in meths.items() if method_calls(m, 'reload', 'self')}
+    n = 0
+    for (name, m) in meths.items():
+        if name in ('__init__', 'reload') or name in ensurers:
+            continue
+        reads = [x for x in walk_local(m) if isinstance(x, ast.Attribute) and isinstance(x.ctx, ast.Load) and self_attr(x) in ('_block_num', '_block_type')]
+        if not reads:
+            continue
+        fv = FuncView(tree, UTIL, 'BundleContainer.' + name)
+        ens = [c for c in calls_in(m) if isinstance(c.func, ast.Attribute) and src(c.func.value) == 'self' and c.func.attr in ensurers]
+        for r in reads:
+            if any(fv.dominates(c, r)[0] for c in ens):
+                n += 1
+                continue
+            ob.violate(UTIL, 'BundleContainer.' + name, 'self.{} read without the index having been built'.format(self_attr(r)), 'the container builds its block index lazily and this method reads it without asking for it: '
+                       'on a fresh container the index is empty (the identity of a fragment lacks its own length, a block is "not there")', r, sure=True)
+            break
+    if not [f for f in ob.findings]:
+        ob.site(UTIL, fi.func, 'lazy index: every reader asks for it first ({} reads)'.format(n))
